@@ -65,6 +65,8 @@ class World:
         bi.update(sc.WORLD_BUILTINS)
         bi["print"] = _noop
         self.builtins = bi
+        for n in self.mods:
+            self.G[n]["__builtins__"] = bi        # must be in place before any function is cloned (captured at creation)
         for n, m in self.mods.items():
             g = self.G[n]
             self._cur_mod = n
